@@ -721,3 +721,60 @@ def flurry_projection(trace, job, consts):
     hashof = [(table[k] if k < len(table) else k) for k in range(1, maxk + 1)]
     return {"id": trace["id"], "nthreads": nth + 1, "prog": [prog[t] for t in range(nth + 1)], "hashof": hashof, "initkeys": [],
             "n0": lay["n0"], "nslots": max(len(slot_ids), 1), "ntnts": max(len(tnt_ids), 1), "ev": out}
+
+
+def treelock_projection(trace, job):
+    """accesses to the lock word / waiter slot of every tree bin + park / unpark -> Trace_TreeLock input"""
+    blocks = []
+    bins, handles = {}, {}
+    ev = []
+    nth = len(job.get("threads", [])) + 1
+
+    def block_of(a):
+        for o, sz in blocks:
+            if o <= a < o + sz:
+                return o
+        return a
+
+    def bid(a):
+        k = block_of(a)
+        if k not in bins:
+            bins[k] = len(bins) + 1
+        return bins[k]
+    for e in trace["ev"]:
+        k = e.get("e")
+        if k == "alloc":
+            blocks.append((e["o"], e.get("sz", 0)))
+            continue
+        if k == "quiescent":
+            break
+        if k != "step":
+            continue
+        t = e.get("t", 0) + 1
+        sk = e.get("k")
+        if sk == "word" and e.get("w") == "ls":
+            b = bid(e["a"])
+            acc = e["acc"]
+            if acc == "load":
+                ev.append({"e": "ld", "t": t, "b": b, "cur": e["cur"]})
+            elif acc == "cas":
+                ev.append({"e": "cas", "t": t, "b": b, "x": e["x"], "y": e["y"], "ok": 1 if e.get("ok") else 0, "cur": e["cur"]})
+            elif acc == "store":
+                ev.append({"e": "st", "t": t, "b": b, "x": e["x"]})
+            elif acc == "add":
+                ev.append({"e": "add", "t": t, "b": b, "x": e["x"], "cur": e["cur"]})
+        elif e.get("ty") == "thread":
+            b = bid(e["a"])
+            if sk == "swap":
+                new = e.get("new", 0)
+                if new:
+                    handles[new] = t
+                ev.append({"e": "wswap", "t": t, "b": b, "new": t if new else 0})
+            elif sk == "load":
+                cur = e.get("cur", 0)
+                ev.append({"e": "wload", "t": t, "b": b, "cur": handles.get(cur, 99) if cur else 0})
+        elif sk == "park":
+            ev.append({"e": "park", "t": t})
+        elif sk == "unpark":
+            ev.append({"e": "unpark", "t": t, "u": e.get("u", -1) + 1})
+    return {"id": trace["id"], "nbins": max(len(bins), 1), "nthreads": nth, "finished": 1 if trace.get("outcome") == "Done" else 0, "ev": ev}
